@@ -4,4 +4,6 @@ import IweModel.Props.C07
 #print axioms Iwe.C07.nest_identity
 #print axioms Iwe.C07.note_nest_identity
 #print axioms Iwe.C07.heading_count_kept
+#print axioms Iwe.C07.reader_outline
+#print axioms Iwe.C07.events_to_rendered_outline
 #print axioms Iwe.C07.levels_restart_in_containers
